@@ -1627,6 +1627,20 @@ def _gset(f):
 def _cmp_guards(f):
     return set(x for x in (_cmp_norm(g["cond"].replace(" ", ""), g["pol"]) for g in expand_guards(f.get("g", []))) if x)
 
+def _push_back_alias(r, prop, facts, label):
+    """std::vector allows v.push_back(v[i]): the reference parameter may point INTO the storage, so it must not be read on a path that
+    has already replaced the storage (a call of this.resize); a local copy taken before the call is fine."""
+    out = []
+    for gcall in [f for f in facts if f["k"] == "call" and f["a"] == "this.resize"]:
+        gc = _gset(gcall)
+        for f in facts:
+            if f["k"] in ("assign", "localstmt") and re.search(r"\$t\b", str(f.get("b", ""))) and f.get("line", 0) > gcall.get("line", 0):
+                gf = _gset(f)
+                if not any((c_, 1 - p_) in gf for (c_, p_) in gc):
+                    out.append(finding(label, prop, r, "%s = %s" % (f.get("a"), f.get("b")), "the reference parameter t is read after resize() may have replaced the storage: v.push_back(v[i]) reads dead storage when the container grows", f.get("line")))
+    return out
+
+
 def rule_own(rows, prop):
     findings, samples = [], []
     n = 0
@@ -1715,11 +1729,20 @@ def rule_own(rows, prop):
                 grow = any(f["k"] == "call" and f["b"].replace(" ", "") in ("this.resize((this.size_+1))", "this.resize((1+this.size_))") and (_cmp_guards(f) & FULL) for f in facts)
                 inc = any(f["k"] == "assign" and f["a"] == "this.size_" and f["b"].replace(" ", "") in ("(this.size_+1)", "(1+this.size_)") and (_cmp_guards(f) & ROOM) for f in facts) \
                       or any(f["k"] in ("assign", "incr") and f["a"] == "this.size_" and (_cmp_guards(f) & ROOM) for f in facts if f["k"] == "incr")
-                st = any(f["k"] == "assign" and f["a"] == "this.buffer_[(this.size_ - 1)]" and f["b"] == "$t" for f in facts)
+                # the stored value is the parameter or a local copy of it
+                locs_pb, _ = single_def_locals(r)
+                def _is_t(x):
+                    x = x.strip()
+                    return x == "$t" or (x.startswith("%") and subst_locals(x, locs_pb).strip() == "$t")
+                st = any(f["k"] == "assign" and f["a"] == "this.buffer_[(this.size_ - 1)]" and _is_t(f["b"]) for f in facts)
+                findings.extend(_push_back_alias(r, prop, facts, "R-OWN.vector.push_back_alias"))
                 if not (grow and inc and st):
                     findings.append(finding("R-OWN.vector.push_back", prop, r, "push_back", "push_back is not {grow when full | size_+1 otherwise; buffer_[size_-1] = t} (grow=%s, inc=%s, store=%s)" % (grow, inc, st)))
             if len(samples) < 3:
                 samples.append("R-OWN %s" % r.get("sig", r["fn"])[:90])
+        elif cls == "nmtools::small_vector" and short == "push_back" and "small_vector.hpp" in r["file"]:
+            n += 1
+            findings.extend(_push_back_alias(r, prop, facts, "R-OWN.small_vector.push_back_alias"))
         elif cls == "nmtools::small_vector" and short == "resize" and "small_vector.hpp" in r["file"]:
             # growing out of the inline storage: the old contents - prev_size = size() elements, not more - are copied into the new buffer
             # before it replaces the old one
